@@ -153,6 +153,8 @@ func obfuscateName(v xssVec, mode int) string {
 		name = name[:len(name)/2] + "\x00" + name[len(name)/2:]
 	case 4:
 		name = gen.UpperASCII(name[:1]) + "\x00\x00" + name[1:]
+	case 5:
+		name = name[:len(name)/2] + strings.Repeat("\x00", 130) + name[len(name)/2:]
 	}
 	return v.s[:v.nameOff] + name + v.s[v.nameOff+v.nameLen:]
 }
@@ -169,7 +171,10 @@ func TestC04(t *testing.T) {
 	c.ParRange(p, int64(len(g)), func(w *Worker, i int64) {
 		v := g[i]
 		seen := map[string]bool{}
-		for m := 0; m <= 4; m++ {
+		for m := 0; m <= 5; m++ {
+			if m == 5 && i%11 != 0 {
+				continue // 130-NUL names on every 11th vector
+			}
 			s := obfuscateName(v, m)
 			if seen[s] {
 				continue
